@@ -397,7 +397,8 @@ static struct rnode *rnode_atom(char **pat)
 			rnode->maxcnt = rnode->mincnt;
 		}
 		++*pat;
-		if (rnode->mincnt > NREPS || rnode->maxcnt > NREPS) {
+		if (rnode->mincnt > NREPS || rnode->maxcnt > NREPS ||
+				(rnode->maxcnt >= 0 && rnode->mincnt > rnode->maxcnt)) {
 			rnode_free(rnode);
 			return NULL;
 		}
